@@ -383,3 +383,21 @@ ADDENDA = {
 }
 for _p, _t in ADDENDA.items():
     MANIFEST_TEXT[_p]["text"] += " " + _t
+
+# ------------------------------------------------------------- thread compatibility on distinct objects (world "par")
+# Two or three simulated threads, each with containers of its own, interleaved INSIDE library functions at basic-block
+# granularity (the "work" variant's trace-pc callback is the preemption point); each thread's results and container
+# structures must be exactly what it sees when it runs alone. See DESIGN.md 11.8.
+PAR_MODES = {"C01": 1, "C02": 2, "C03": 3, "C05": 5, "C07": 7, "C08": 8, "C09": 9, "C10": 10, "C11": 11, "C12": 12, "C13": 13}
+PAR_ASSUMPTION = ("the property is taken to hold for each thread's own objects whatever other threads do with theirs: a batch of runs (world 'par') "
+                  "interleaves 2-3 simulated threads, each with containers and elements of its own, inside library functions at basic-block granularity "
+                  "(preemption points from -fsanitize-coverage=trace-pc in the 'work' build variant; uniform and park-and-overtake schedules from the seed) "
+                  "and demands that every operation's result and the complete container structure equal what the same thread sees when it runs alone; "
+                  "the library is thus required to keep no hidden state shared between objects (a static scratch node, a parked comparator)")
+for _p, _m in PAR_MODES.items():
+    CHECKS[_p]["batches"].append(dict(world="par", mode=_m, variants={"work": 1.0},
+                                      quick=20000 if _m in (1, 2) else 8000, thorough=2000000 if _m in (1, 2) else 600000))
+    CHECKS[_p]["required_probes"].append("par_preemptions_inside_library")
+    CHECKS[_p]["assumptions"].append(PAR_ASSUMPTION)
+    MANIFEST_TEXT[_p]["text"] += (" A further batch (world 'par') runs 2-3 simulated threads, each with objects of its own, preempted inside library functions at "
+                                  "basic-block granularity, and compares every result and structure with the same thread running alone (no hidden shared state between objects).")
